@@ -114,6 +114,7 @@ def rule_astar(chk, prog):
         r.bad("heap order", fn.where(), "heap operations do not consistently use one ANodeCmp comparator: %s" % sorted(cmpvars))
     else:
         r.ok("heap order", fn.where(), "%d heap operations with %s" % (len(heap_calls), cmpdecl[0]["t"]))
+    repl = [node for lhs, node, op in writes(fn) if norm(lhs) == "currInd.*.*" and norm(node["ch"][-1]) == "node"]
     best = [node for lhs, node, op in writes(fn) if norm(lhs) == "bestNode" and op == "=" and norm(node["ch"][1]) == "PENDING.front()"]
     if not best:
         r.bad("best node", fn.where(), "the node expanded next is not PENDING.front()")
@@ -130,6 +131,34 @@ def rule_astar(chk, prog):
             r.ok("relaxation", fn.loc(repl[0]))
         else:
             r.bad("relaxation", fn.loc(repl[0]), "an existing PENDING entry is replaced under %s, not only when node.g < ati.g" % show(pc)[:200])
+    # heap discipline: an element appended to PENDING is sifted with push_heap; an element overwritten in place invalidates
+    # the heap property at an arbitrary position and must be followed by make_heap; pop_heap is followed by pop_back
+    from ..cfg import CFG
+    g = CFG(fn)
+    mk = [n["id"] for n in heap_calls if n.get("cname", "").startswith("std::make_heap")]
+    ph = [n["id"] for n in heap_calls if n.get("cname", "").startswith("std::push_heap")]
+    popb = [n["id"] for n in calls(fn) if n.get("cname", "").endswith("::pop_back") and norm(call_object(n)) == "PENDING"]
+    main_loop = [n for n in fn.nodes() if n.get("k") == "WhileStmt" and norm(n.get("cond")) == "!PENDING.empty()"]
+    hd_bad = None
+    if not main_loop:
+        hd_bad = "main loop `while (!PENDING.empty())` not found"
+    else:
+        nxt = strip(main_loop[0]["cond"])["id"]
+        for rp in repl:
+            w = g.search([g.after(rp["id"])], blocked=mk, targets=[nxt])
+            if w is not None:
+                hd_bad = "after overwriting a queued node in place the heap is not rebuilt with make_heap before the next pop (%s): the " \
+                         "cheaper entry can stay buried and a more expensive path be expanded first" % g.describe(w)
+        for pb in [n for n in calls(fn) if n.get("cname", "").endswith("::push_back") and norm(call_object(n)) == "PENDING"
+                   and any(x.get("id") == main_loop[0]["id"] for x in fn.ancestors(n))]:
+            w = g.search([g.after(pb["id"])], blocked=ph + mk, targets=[nxt])
+            if w is not None:
+                hd_bad = hd_bad or "a node appended to PENDING inside the search loop is not sifted into the heap (%s)" % g.describe(w)
+        for pp in [n for n in heap_calls if n.get("cname", "").startswith("std::pop_heap")]:
+            w = g.search([g.after(pp["id"])], blocked=popb, targets=[nxt])
+            if w is not None:
+                hd_bad = hd_bad or "pop_heap is not followed by PENDING.pop_back()"
+    (r.bad if hd_bad else r.ok)("heap discipline", fn.where(), hd_bad or "")
     # termination test
     term = [n for n in fn.nodes() if n.get("k") == "IfStmt" and norm(n["cond"]) in ("(bestNodeInf == tar)", "(bestNode.inf == tar)")
             and any(x.get("k") == "BreakStmt" for x in walk(n["then"]))]
